@@ -56,6 +56,7 @@ type VC struct {
 	memSorts    map[string]string
 	addrTerms   map[string]map[Term]*addrUse
 	quantKeys   map[string]bool
+	callArgs    map[string][]cval
 	havocs      []havocEvent
 	closures    map[Term]*closureInfo
 	fnTerms     map[Term]*ssa.Function
